@@ -300,7 +300,8 @@ impl World {
         }
         let mut hit = None;
         for f in &self.faults {
-            if f.at == FaultAt::Op(op) {
+            let read_hit = kind == OpKind::Read && self.read_idx > 0 && f.at == FaultAt::Read(self.read_idx - 1);
+            if f.at == FaultAt::Op(op) || read_hit {
                 hit = Some((f.kind.clone(), f.persistent));
                 break;
             }
